@@ -568,7 +568,7 @@ impl E2Run for Cksum {
     fn budget(&self, tier: &Tier) -> (u64, u64) {
         match tier {
             Tier::Quick => (60_000, 50),
-            Tier::Thorough => (4_000_000, 3000),
+            Tier::Thorough => (4_000_000, 1200),
         }
     }
 
